@@ -171,28 +171,60 @@ fn run_single_inner(source: &str, filename: &str, upto: Upto, record: bool) -> O
 }
 
 /// Run textual IR through lli (the path `penne run` uses); returns (stdout, exit status).
+/// The time limit is enforced here (not by timeout(1), whose status 124 a program may return itself).
 pub fn run_lli(ir: &str, timeout_s: u64) -> Result<(String, i32), String> {
-    use std::io::Write;
+    use std::io::{Read, Write};
     use std::process::{Command, Stdio};
-    let mut child = Command::new("timeout")
-        .arg(format!("{timeout_s}"))
-        .arg("lli")
+    let mut child = Command::new("lli")
         .stdin(Stdio::piped())
         .stdout(Stdio::piped())
         .stderr(Stdio::piped())
         .spawn()
         .map_err(|e| format!("spawn lli: {e}"))?;
-    child
-        .stdin
-        .as_mut()
-        .unwrap()
-        .write_all(ir.as_bytes())
-        .map_err(|e| format!("write lli: {e}"))?;
-    let output = child.wait_with_output().map_err(|e| format!("wait lli: {e}"))?;
-    let stdout = String::from_utf8_lossy(&output.stdout).to_string();
-    match output.status.code() {
-        Some(124) => Err("timeout".to_string()),
-        Some(c) => Ok((stdout, c)),
-        None => Err(format!("signal; stderr={}", String::from_utf8_lossy(&output.stderr))),
+    {
+        let mut stdin = child.stdin.take().unwrap();
+        // a program that exits before reading all of its input is not an error
+        let _ = stdin.write_all(ir.as_bytes());
+    }
+    let mut stdout_pipe = child.stdout.take().unwrap();
+    let mut stderr_pipe = child.stderr.take().unwrap();
+    let out_thread = std::thread::spawn(move || {
+        let mut buf = Vec::new();
+        let mut limited = (&mut stdout_pipe).take(4 << 20);
+        let _ = limited.read_to_end(&mut buf);
+        // drain the rest so that the child never blocks on a full pipe
+        let _ = std::io::copy(&mut stdout_pipe, &mut std::io::sink());
+        buf
+    });
+    let err_thread = std::thread::spawn(move || {
+        let mut buf = Vec::new();
+        let mut limited = (&mut stderr_pipe).take(1 << 16);
+        let _ = limited.read_to_end(&mut buf);
+        let _ = std::io::copy(&mut stderr_pipe, &mut std::io::sink());
+        buf
+    });
+    let deadline = std::time::Instant::now() + std::time::Duration::from_secs(timeout_s);
+    let status = loop {
+        match child.try_wait() {
+            Ok(Some(st)) => break Some(st),
+            Ok(None) => {
+                if std::time::Instant::now() > deadline {
+                    let _ = child.kill();
+                    let _ = child.wait();
+                    break None;
+                }
+                std::thread::sleep(std::time::Duration::from_millis(2));
+            }
+            Err(e) => return Err(format!("wait lli: {e}")),
+        }
+    };
+    let stdout = String::from_utf8_lossy(&out_thread.join().unwrap_or_default()).to_string();
+    let stderr = String::from_utf8_lossy(&err_thread.join().unwrap_or_default()).to_string();
+    match status {
+        None => Err("timeout".to_string()),
+        Some(st) => match st.code() {
+            Some(c) => Ok((stdout, c)),
+            None => Err(format!("signal; stderr={}", stderr.chars().take(300).collect::<String>())),
+        },
     }
 }
